@@ -186,7 +186,7 @@ async def _one(case, token, obs, streams=None):
     # peer's end is closed right after the first write
     wmode = case.get("writer", "open")
     if streams is None:
-        out_send, out_recv = anyio.create_memory_object_stream(1 if wmode == "blocked" else math.inf)
+        out_send, out_recv = anyio.create_memory_object_stream(1 if wmode in ("blocked", "stalled") else math.inf)
     else:
         out_send, out_recv = streams[2], streams[3]
         wmode = "open"
@@ -198,7 +198,7 @@ async def _one(case, token, obs, streams=None):
     ctx = {"id": preset if preset else None, "tok": None}
 
     def drain():
-        if wmode == "blocked" and writes and not drain.final:
+        if wmode in ("blocked", "stalled") and writes and not drain.final and not drain.released:
             return  # the peer has stopped reading: taking an item would let a blocked write through
         while True:
             try:
@@ -217,13 +217,24 @@ async def _one(case, token, obs, streams=None):
                 meta = (d.get("params") or {}).get("_meta") or {}
                 # the request's own progress token exists only when a callback was supplied
                 ctx["tok"] = meta.get("progressToken") if case.get("progress") else None
-        if wmode == "blocked" and writes and not drain.final:
+        if wmode in ("blocked", "stalled") and writes and not drain.final and not drain.released:
             try:
                 filler_send.send_nowait(_FILLER)  # keep the one slot occupied
             except Exception:
                 pass
 
     drain.final = False
+    drain.released = False
+
+    def reads_again():
+        # the stalled peer starts reading again: whatever is waiting goes through, and from now on
+        # the stream is drained at every scripted instant as in the open state
+        drain.released = True
+        drain()
+        loop.at(loop.ticks, drain)  # the write that was blocked completes in this instant
+
+    if wmode == "stalled":
+        loop.at(t0 + case["stallUntil"], reads_again)
 
     def after_first_write():
         drain()
@@ -269,7 +280,7 @@ async def _one(case, token, obs, streams=None):
         # cancellation cannot be cut off by the scope below, so the stalled writer is let go
         # (the peer "starts reading again"); whatever the call then does, it is reported as hung.
         hung["v"] = True
-        if wmode == "blocked":
+        if wmode in ("blocked", "stalled"):
             drain.final = True
             drain()
 
@@ -448,7 +459,7 @@ def model_line(case, obs, poll_ticks=P_TICKS_DEFAULT):
         "cancelAt": case.get("cancelAt"),
         "token": ({"s": ctx["tok"]} if isinstance(ctx["tok"], str) else {"i": ctx["tok"]}) if ctx["tok"] is not None else None,
         "eventsFirst": case.get("tie", "events") in ("events", "io"),
-        "writer": case.get("writer", "open"),
+        "writer": case.get("writer", "open"), "stallUntil": case.get("stallUntil"),
         "ev": [[a, resolved_event(ev, ctx)] for a, ev in case["ev"]],
     }
 
